@@ -117,7 +117,8 @@ SPECS = {
     "C06": engine_spec("C06", r"(bal\.|p\d+\.\d+|e\.(maint|liqfee|plr|baddebt)|v\d+\.(overspread|q|b))",
                        shards(8, 25, prof="liq"), shards(16, 150, prof="liq")),
     "C07": engine_spec("C07", r"(p\d+\.\d+|e\.|v\d+\.(overspread|uprice|open)|if\.)",
-                       shards(6, 25, prof="liq") + shards(2, 20, "-", "real", "liq"), shards(12, 150, prof="liq") + shards(4, 100, "-", "real", "liq")),
+                       shards(6, 25, prof="liq") + shards(3, 25, prof="drain") + shards(2, 20, "-", "real", "liq"),
+                       shards(12, 150, prof="liq") + shards(6, 150, prof="drain") + shards(4, 100, "-", "real", "liq")),
     "C10": Spec("C10", [Family("engine", shards(7, 25), shards(14, 150)), fam("forge", 6, 40)],
                 merged((("engine", "forge"), mon_engine.monitor_for("C10"))),
                 ENGINE_RULE + "; plus the key-collision scenario: position keys are sha3(vamm || trader) without separator, an account whose address is a suffix of a trader's address "
